@@ -469,7 +469,7 @@ PROPS = {
                         "V11_emit.encode_code_section.probe_records_of_every_live_local_function_with_code_as_emitted", "V11_emit.encode_code_section.no_other_records", "V11_emit.fn:Module::encode_code_section",
                         # how a tag reaches the list it is meant for (V20)
                         "V20_tags.append_to_tag.*", "V20_tags.fn:HasInjectTag::append_to_tag", "V20_tags.fn:TagUtils::get_or_create_tag", "V20_tags.fn:TagUtils::get_tag",
-                        "V20_tags.fn:InjectedInstrs as TagUtils::*", "V20_tags.fn:InstrumentationFlag as TagUtils::*", "V20_tags.fn:FuncInstrFlag as TagUtils::*",
+                        "V20_tags.fn:* as TagUtils::*",
                         "V20_tags.append_instr_tag_at.*", "V20_tags.fn:LocalFunction::append_instr_tag_at"],
         "glue": ["tags (V20): `append_to_tag` (the default method) and the get_or_create_tag / get_tag of InjectedInstrs, InstrumentationFlag and FuncInstrFlag are under contract - the bytes are appended to the tag of the list the current mode addresses, an absent tag counts as empty, nothing else changes -, as is LocalFunction::append_instr_tag_at; `Option::get_or_insert_default` is a named wrapper (ASSUMED; derived Default of Tag / InjectedInstrs = empty); the iterators' append_tag_at forwarders and the tag setters of module-level items (get_or_create_tag of Export, Import, Global, ...) are read, not proved", "ASSUMED: #[derive(Hash, Eq)] of InjectType obeys the HashMap key model; #[derive(Clone)] of Injection, Tag, Types and InitExpr, String::clone, <[u8]>::to_vec and Tag::to_owned yield equal values; DataType::from(ValType) is an uninterpreted dt_of (its exactness: Kani K1); str::to_string is modelled by an uninterpreted str_owned",
                  "the Type, Import, Export, Memory, Table, Element, Global, Data, Func and Probe records are decided (Global, Data, Func and Probe records through a view, because they hold Vecs: id / type / tag / initialiser resp. memory / offset / bytes / tag resp. function / position / mode / code / tag, with the indices inside in the index space of the encoded module). Func records are made when the function section is written, i.e. with the body as stored BEFORE the code section rewrites it (the caller's index space); Local records are never produced by the library. Probe records: a record is made for EVERY non-empty probe list, tagged or not (an untagged list gets the empty tag) - the property speaks of probes that carry a tag, for which this gives exactly one record with that tag; after- / replacement code placed on a function's final `end` is never emitted and (after fix F32) gets no record. That the function-level records are pulled exactly once per lowered function and the location records once per live local function is proved for the two regions (take_function_level_code of the lowering driver, encode_code_section); that encode_internal runs the lowering before the code section is glue",
